@@ -101,6 +101,9 @@ def run(ctx):
         cases.append((s, s2, edits))
     for a, c in APACHE:
         cases.append((a, a, []))
+    # witness of the fixed-point defect, re-run on every run
+    w = {"type": "record", "name": "a.P", "fields": [{"name": "f", "type": {"type": "fixed", "name": "R", "namespace": "", "size": 1}}]}
+    cases.append((w, w, []))
 
     # model: canon(parse j) and pcf j for both members of every pair
     exprs = []
